@@ -190,6 +190,8 @@ type passResult struct {
 	writes  int
 	crashed bool
 	err     error
+	finOpen int // finalized checkpoint (epoch) right after the stack was opened: bft.NewEngine's start-up repair of an
+	// interrupted commit has run by then (it commits the head again if the head is a store point)
 }
 
 // pass opens a stack over kv (start-up order: repository, bft.NewEngine) and runs Resync; cut >= 0 arms the engine so
@@ -204,6 +206,7 @@ func (w *world) pass(ci *chainInfo, kv *kvrec.Engine, cut int, run int) (res pas
 	defer nd.Close()
 	base := kv.Len()
 	finBefore := int(block.Number(nd.BFT.Finalized()))/L + 1
+	res.finOpen = finBefore
 	w.evs = append(w.evs, trace.Ev{"e": "Begin", "fin": finBefore})
 	if cut >= 0 {
 		kv.CrashAt(base + cut)
@@ -346,7 +349,11 @@ func (w *world) scenario(p, op *chainInfo, miss map[int]bool) {
 	reset()
 	kv := stale.Clone()
 	r := w.pass(p, kv, -1, run)
-	w.finish(p, kv, fin0, r, run)
+	base := fin0
+	if r.finOpen > base {
+		base = r.finOpen // what the store implies once the start-up repair has completed the head's commit
+	}
+	w.finish(p, kv, base, r, run)
 	total := r.writes
 	// a later start-up over the finished store: the saved version makes the pass a no-op
 	if r.err == nil {
@@ -354,7 +361,7 @@ func (w *world) scenario(p, op *chainInfo, miss map[int]bool) {
 		if again.writes != 0 {
 			w.viol(run, "resync-not-idempotent", fmt.Sprintf("%d writes by a pass over a store whose version is saved", again.writes))
 		}
-		w.finish(p, kv, fin0, again, run)
+		w.finish(p, kv, base, again, run)
 	}
 	for cut := 0; cut < total; cut++ {
 		w.runs++
@@ -362,6 +369,10 @@ func (w *world) scenario(p, op *chainInfo, miss map[int]bool) {
 		reset()
 		kv := stale.Clone()
 		r1 := w.pass(p, kv, cut, run)
+		base := fin0
+		if r1.finOpen > base {
+			base = r1.finOpen
+		}
 		if !r1.crashed {
 			w.viol(run, "resync-harness", "armed cut not reached")
 			continue
@@ -377,7 +388,7 @@ func (w *world) scenario(p, op *chainInfo, miss map[int]bool) {
 			w.evs = append(w.evs, trace.Ev{"e": "Restart"})
 			r2 = w.pass(p, kv, -1, run)
 		}
-		w.finish(p, kv, fin0, r2, run)
+		w.finish(p, kv, base, r2, run)
 	}
 }
 
